@@ -841,6 +841,13 @@ class NetworkGraph(AbstractBaseIR):
                         w_1d = weight.squeeze(axis=1)
                         args[w_str] = {'vtype': 'constant', 'value': w_1d, 'dtype': 'float', 'shape': w_1d.shape}
                         eqs.append(f"{t_str} = {w_str} * {s_str}")
+                    elif weight.shape[0] == 1:
+                        # When n_target == 1 the target variable is a scalar at runtime,
+                        # whereas np.dot((1,n), (n,)) returns a (1,)-shaped array. A 1-D
+                        # weight vector turns the product into an inner product (0-d).
+                        w_1d = weight.squeeze(axis=0)
+                        args[w_str] = {'vtype': 'constant', 'value': w_1d, 'dtype': 'float', 'shape': w_1d.shape}
+                        eqs.append(f"{t_str} = matvec({w_str}, {s_str})")
                     else:
                         eqs.append(f"{t_str} = matvec({w_str}, {s_str})")
                 else:
